@@ -682,6 +682,10 @@ Definition mon_verdict (c : mon_case) : verdict :=
   | Err e, _, _ => undef e
   end.
 
+(* a swept netlist: one net_case per sweep point (component matrices of that point, slice of the result) *)
+Definition nets_case := list net_case.
+Definition nets_verdict (l : nets_case) : verdict := worst (map net_verdict l).
+
 (* a sweep: one mon_case per sweep point (the point's component matrices, external matrix and table row) *)
 Definition mons_case := list mon_case.
 Definition mons_verdict (l : mons_case) : verdict := worst (map mon_verdict l).
